@@ -634,6 +634,15 @@ func (p *Parent) Finish(sum *Summary) int {
 	if len(sum.Exhaustive) > 0 {
 		cov["exhaustive_subspaces"] = sum.Exhaustive
 	}
+	if f := os.Getenv("VERIF_CODE_REACHED"); f != "" {
+		// statement coverage of go-geom measured by ./check (thorough tier only)
+		if b, err := os.ReadFile(f); err == nil {
+			var cr any
+			if json.Unmarshal(b, &cr) == nil {
+				cov["code_reached"] = cr
+			}
+		}
+	}
 	if len(sum.Inconclusive) > 0 {
 		cov["inconclusive"] = sum.Inconclusive
 	}
